@@ -140,6 +140,24 @@ Theorem C04_src_block_job_reports_failure :
 Proof. exact x_block_job_arms_ok. Qed.
 Print Assumptions C04_src_block_job_reports_failure.
 
+(* ---- a block job that PANICS reports nothing (the pool respawns its thread, the dispatcher returns Ok): the user-space
+   fall-back, the one place of the data path that slices a buffer, never slices out of range — the buffer the translated
+   function allocates holds every read the translated loop issues, for every block size and every kernel answer ---- *)
+From XcpModel Require Import CopyLoop Uspace.
+From XcpProofs Require Import UspaceProofs XLoops.
+Theorem C04_src_fallback_buffer_holds_every_read : forall fuel nbytes off ans,
+  reads_fit (x_copy_range_uspace_buf_len nbytes off) (u_trace (x_copy_range_uspace fuel nbytes off ans)).
+Proof. exact x_range_buffer_holds_every_read. Qed.
+Theorem C04_src_fallback_stream_buffer_holds_every_read : forall fuel nbytes rpos wpos ans,
+  reads_fit (x_copy_bytes_uspace_buf_len nbytes) (u_trace (x_copy_bytes_uspace fuel nbytes rpos wpos ans)).
+Proof. exact x_bytes_buffer_holds_every_read. Qed.
+Example C04_fallback_reads_nonvacuous :
+  u_trace (x_copy_range_uspace 5 300000 0 [XOk 200000; XOk 200000; XOk 100000; XOk 100000]) =
+    [(URead 0 300000, XOk 200000); (UWrite 0 0 200000, XOk 200000); (URead 200000 100000, XOk 100000); (UWrite 200000 200000 100000, XOk 100000)]%N.
+Proof. vm_compute. reflexivity. Qed.
+Print Assumptions C04_src_fallback_buffer_holds_every_read.
+Print Assumptions C04_src_fallback_stream_buffer_holds_every_read.
+
 (* ---- more glue on this property's path, pinned token for token ---- *)
 From XcpPins Require Import Pin_main_expand_globs Pin_main_expand_sources Pin_operations_tree_walker Pin_operations_new.
 Theorem C04_src_pin_main_expand_globs : pin_unchanged name_main_expand_globs.
